@@ -1,7 +1,6 @@
 import D2V.Model.Clip
 import D2V.Proofs.RoundGo
 import Mathlib.Tactic.Linarith
-import Mathlib.Tactic.FieldSimp
 import Mathlib.Tactic.Ring
 import Mathlib.Tactic.NormNum
 /-! C20 — Connections start at their source and end at their destination.
